@@ -24,21 +24,21 @@ theorem feed_eq_run (c : Cfg) (r : Req) : ∀ (evs : List Ev) (s : St) (acc : Li
     rw [feed_eq_run c r es]
     simp [List.append_assoc]
 
-theorem sim_eq_run (c : Cfg) (r : Req) (bodySent : Bool) (fuel : Nat) (s : St) (faults : List Fault) (acc : List Out) :
-    sim c r bodySent fuel s faults acc =
-      ((run c r s (simTrace c r bodySent fuel s faults)).1, acc ++ (run c r s (simTrace c r bodySent fuel s faults)).2) := by
+theorem sim_eq_run (c : Cfg) (r : Req) (bodySent headReq : Bool) (fuel : Nat) (s : St) (faults : List Fault) (acc : List Out) :
+    sim c r bodySent headReq fuel s faults acc =
+      ((run c r s (simTrace c r bodySent headReq fuel s faults)).1, acc ++ (run c r s (simTrace c r bodySent headReq fuel s faults)).2) := by
   unfold sim
   exact feed_eq_run c r _ s acc
 
 /-- the whole event list of a scenario -/
-def scenarioTrace (c : Cfg) (r : Req) (bodySent : Bool) (addrs : List Nat) (prime : Bool) (faults : List Fault) : List Ev :=
+def scenarioTrace (c : Cfg) (r : Req) (bodySent headReq : Bool) (addrs : List Nat) (prime : Bool) (faults : List Fault) : List Ev :=
   let pool := if prime then (addrs.filter alive).take 1 else []
   let pre := addrs.map Ev.noteDestination ++ [Ev.noteDestinationsEnd]
-  pre ++ simTrace c r bodySent (4 * (addrs.length + faults.length) + 8) (run c r (init pool) pre).1 faults
+  pre ++ simTrace c r bodySent headReq (4 * (addrs.length + faults.length) + 8) (run c r (init pool) pre).1 faults
 
-theorem scenario_eq_run (c : Cfg) (r : Req) (bodySent : Bool) (addrs : List Nat) (prime : Bool) (faults : List Fault) :
-    scenario c r bodySent addrs prime faults =
-      run c r (init (if prime then (addrs.filter alive).take 1 else [])) (scenarioTrace c r bodySent addrs prime faults) := by
+theorem scenario_eq_run (c : Cfg) (r : Req) (bodySent headReq : Bool) (addrs : List Nat) (prime : Bool) (faults : List Fault) :
+    scenario c r bodySent headReq addrs prime faults =
+      run c r (init (if prime then (addrs.filter alive).take 1 else [])) (scenarioTrace c r bodySent headReq addrs prime faults) := by
   unfold scenario scenarioTrace
   dsimp only
   generalize (addrs.map Ev.noteDestination ++ [Ev.noteDestinationsEnd]) = pre
@@ -52,30 +52,30 @@ def Fault.replyStatus : Fault → Option Nat
   | .partBody s _ => some s
   | _ => none
 
-theorem faultEvents_reply (hasBody bodySent : Bool) (f : Fault) (st : Nat)
-    (h : Ev.replyHeaders st ∈ faultEvents hasBody bodySent f) : f.replyStatus = some st := by
+theorem faultEvents_reply (hasBody bodySent headReq : Bool) (f : Fault) (st : Nat)
+    (h : Ev.replyHeaders st ∈ faultEvents hasBody bodySent headReq f) : f.replyStatus = some st := by
   unfold faultEvents at h
   cases f with
-  | partBody s rst => cases rst <;> simp at h <;> simp_all [Fault.replyStatus]
+  | partBody s rst => cases rst <;> cases headReq <;> simp at h <;> simp_all [Fault.replyStatus]
   | partHead k rst => cases rst <;> simp at h
   | _ => simp at h <;> simp_all [Fault.replyStatus]
 
-theorem simTrace_reply (c : Cfg) (r : Req) (bodySent : Bool) (st : Nat) : ∀ (fuel : Nat) (s : St) (faults : List Fault),
-    Ev.replyHeaders st ∈ simTrace c r bodySent fuel s faults → st = 200 ∨ ∃ f ∈ faults, f.replyStatus = some st
+theorem simTrace_reply (c : Cfg) (r : Req) (bodySent headReq : Bool) (st : Nat) : ∀ (fuel : Nat) (s : St) (faults : List Fault),
+    Ev.replyHeaders st ∈ simTrace c r bodySent headReq fuel s faults → st = 200 ∨ ∃ f ∈ faults, f.replyStatus = some st
   | 0, _, _, h => by simp [simTrace] at h
   | fuel + 1, s, faults, h => by
     unfold simTrace at h
     split at h
     · simp only [List.mem_cons, reduceCtorEq, false_or] at h
-      exact simTrace_reply c r bodySent st fuel _ faults h
+      exact simTrace_reply c r bodySent headReq st fuel _ faults h
     · simp only [List.mem_cons, reduceCtorEq, false_or] at h
-      exact simTrace_reply c r bodySent st fuel _ faults h
+      exact simTrace_reply c r bodySent headReq st fuel _ faults h
     · rcases List.mem_append.mp h with h1 | h2
-      · have := faultEvents_reply _ _ _ _ h1
+      · have := faultEvents_reply _ _ _ _ _ h1
         cases faults with
         | nil => left; simp [Fault.replyStatus] at this; exact this.symm
         | cons f fs => right; exact ⟨f, by simp, by simpa using this⟩
-      · rcases simTrace_reply c r bodySent st fuel _ faults.tail h2 with h3 | ⟨f, hf, hs⟩
+      · rcases simTrace_reply c r bodySent headReq st fuel _ faults.tail h2 with h3 | ⟨f, hf, hs⟩
         · left; exact h3
         · right; exact ⟨f, List.mem_of_mem_tail hf, hs⟩
     · simp at h
@@ -83,13 +83,13 @@ theorem simTrace_reply (c : Cfg) (r : Req) (bodySent : Bool) (st : Nat) : ∀ (f
 /-- Scenario-level corollary of the partial theorem: whatever the configuration, address list, primed pconn and
 fault script, a request whose method is neither safe nor idempotent is dispatched at most once in the simulated
 scenario unless one of the scripted replies carries a re-forwardable status. -/
-theorem scenario_at_most_once (c : Cfg) (r : Req) (bodySent : Bool) (addrs : List Nat) (prime : Bool) (faults : List Fault)
+theorem scenario_at_most_once (c : Cfg) (r : Req) (bodySent headReq : Bool) (addrs : List Nat) (prime : Bool) (faults : List Fault)
     (hm : r.safe = false ∧ r.idem = false) (h200 : isReforwardableStatus c 200 = false)
     (hno : ∀ f ∈ faults, ∀ st, f.replyStatus = some st → isReforwardableStatus c st = false) :
-    dispatches (scenario c r bodySent addrs prime faults).2 ≤ 1 := by
+    dispatches (scenario c r bodySent headReq addrs prime faults).2 ≤ 1 := by
   rw [scenario_eq_run]
   have hnr : checkRetriable r = false := by unfold checkRetriable; split <;> simp [hm.1, hm.2]
-  have hb := run_good c r hnr (scenarioTrace c r bodySent addrs prime faults)
+  have hb := run_good c r hnr (scenarioTrace c r bodySent headReq addrs prime faults)
     (init (if prime then (addrs.filter alive).take 1 else [])) (by intro d b h; simp [init] at h)
   rw [reforwards_zero c r _ _ rfl] at hb
   · have hp : pending (init (if prime then (addrs.filter alive).take 1 else [])) = 1 := rfl
@@ -99,7 +99,7 @@ theorem scenario_at_most_once (c : Cfg) (r : Req) (bodySent : Bool) (addrs : Lis
     dsimp only at hst
     rcases List.mem_append.mp hst with h1 | h2
     · simp at h1
-    · rcases simTrace_reply c r bodySent st _ _ faults h2 with h3 | ⟨f, hf, hs⟩
+    · rcases simTrace_reply c r bodySent headReq st _ _ faults h2 with h3 | ⟨f, hf, hs⟩
       · rw [h3]; exact h200
       · exact hno f hf st hs
 
